@@ -25,6 +25,9 @@ def run(ctx):
         "v0 wrappers (compressed magic 0) not generated (outside the property); empty v2 batches not generated (C02: D4/D14)",
     ]
     broken = []
+    ok, log = ctx.extract("records", ["lean/KafkaVerif/Gen/RecordConsts.lean"])
+    if not ok:
+        broken.append({"kind": "obligation", "name": "translator go/extract records", "detail": log[-1500:]})
     res = ctx.prove(MODULE)
     if not res["ok"]:
         broken.append({"kind": "obligation", "theorems": res["failed"], "detail": res["reasons"][:10]})
